@@ -107,7 +107,7 @@ CONFIGS = {
     # a consumer built directly on a plain datasource that is itself built on a spec, failing: under which
     # registry points the failure is filed must not depend on the driver (single pass / sub-graphs / pool)
     "faultsX": dict(N=3, kinds=["datasource", "combiner", "parser", "point"], outs=["val", "crash"], eouts=["val"],
-                    items=1, grp=1, ss=[False]),
+                    items=1, grp=1, ss=[False], keep=2500),
     "faults3c": dict(N=3, kinds=["datasource", "combiner", "point"], outs=["val", "content", "timeout", "crash"],
                      items=1, grp=2, ss=[False, True]),
 }
@@ -332,8 +332,19 @@ def run(prop, tier):
     emitted = len(raw)
     cap = (8000 if len(plan["drivers"]) > 4 else (20000 if len(plan["drivers"]) > 2 else 30000)) if tier == "quick" else (120000 if len(plan["drivers"]) > 2 else 300000)
     rng.shuffle(raw)
-    # the model runs stay exhaustive; the replay takes a VERIF_SEED-determined sample when over budget
-    for name, i, line in raw[:cap]:
+    # the model runs stay exhaustive; the replay takes a VERIF_SEED-determined sample when over budget.
+    # Small configurations written for one situation ("keep") are replayed with at least that many
+    # behaviours whatever the seed, so that what they are there for does not depend on the draw.
+    kept, rest = [], []
+    quota = dict((n, CONFIGS[n].get("keep", 0)) for n in CONFIGS)
+    for item in raw:
+        if quota.get(item[0], 0) > 0:
+            quota[item[0]] -= 1
+            kept.append(item)
+        else:
+            rest.append(item)
+    raw = kept + rest
+    for name, i, line in raw[:max(cap, len(kept))]:
         c = lib.parse_case(line)
         c["id"] = "%s#%d" % (name, i)
         c["cfg"] = name
@@ -367,7 +378,10 @@ def run(prop, tier):
         groups = {}
         for t in traces:
             if t.get("final") is not None:
-                groups.setdefault(case_key(bycase_early[t["id"].split("/")[0]]), []).append(t)
+                # (the same abstract program concretised with and without the shared execution context is
+                #  two programs: the declared ignore sets differ)
+                groups.setdefault((case_key(bycase_early[t["id"].split("/")[0]]),
+                                   lib.json.dumps([q["ignore"] for q in t["prog"]])), []).append(t)
         nsame = 0
         for k, ts in groups.items():
             if len(ts) < 2:
